@@ -241,6 +241,10 @@ func (x *Exec) applyContract(s *State, site ssa.Instruction, fn *ssa.Function, c
 		k(s, x.freshResult(s, site, sig.Results()))
 		return
 	}
+	if c.Unreachable {
+		x.oblige(s, "pre", fmt.Sprintf("%s/never-called@%s", calleeName, x.label(s, site)), TFalse, site, "call of a function declared unreachable")
+		return
+	}
 	x.callsSeen[shortPkg(c.Pkg)+"."+c.Key] = true
 	if c.Trusted {
 		x.trustedUsed[shortPkg(c.Pkg)+"."+c.Key] = true
